@@ -42,6 +42,14 @@ def _arm_scrut(ix, node):
     return None
 
 
+# "the number of source bytes consumed" rests on the read / account pairing of the header and block parsers (C10), "the
+# final checksum values" on the decoder-side hash pairing (C08); reported as C06.consumed / C06.checksum
+INCLUDES = [
+    ("c10", "C06.consumed", {"rules": ("C10.pair.accounting", "C10.who.exact-reads")}, 15),
+    ("c08", "C06.checksum", {"rules": ("C08.pair.hash-on-removal", "C08.read.checksum")}, 6),
+]
+
+
 def run(ctx):
     crate = ctx.crate()
     R = "C06.who.dropper"
@@ -185,25 +193,46 @@ def run(ctx):
     RA = "C06.account.decode_from_to"
 
     def account():
-        body = ctx.mir(FD + "::decode_from_to")
-        incs = acct.increments(body, CNT)
-        rets = acct.ok_tuple_returns(body)
-        ctx.check(len(incs) >= 4 and all(i[1] != "assign" for i in incs), RA, "counter-updates", body.file,
-                  "the consumed counter is only ever incremented in this function", observed=[(i[0], str(i[1])) for i in incs])
-        nlit = 0
-        for bi, ops, sp in rets:
-            k = M.operand_const_int(ops[0])
-            if k is None:
+        # (decided on the normalised HIR, where a test-and-account helper added since the review is inlined back and a
+        # `bool`-returning helper in a condition is distributed over the branches, zsa/normal.py NF14)
+        from .. import paths
+        hb0 = ctx.hir(FD + "::decode_from_to")
+        is_cnt = lambda x: x.get("k") in ("Assign", "AssignOp") and hq.field_chain(x["l"])[1][-1:] == ["bytes_read_counter"]
+        ws = hq.find(hb0["body"], is_cnt)
+        ctx.check(len(ws) >= 4 and all(w.get("k") == "AssignOp" and w.get("op") == "+=" for w in ws), RA, "counter-updates", hb0["file"],
+                  "the consumed counter is only ever incremented in this function", observed=[H.show(w)[:60] for w in ws])
+
+        def lit_ret(r):
+            e = hq.peel(r.get("e") or {})
+            if e.get("k") == "Call" and (H.callee(e) or "").endswith("Result::Ok") and len(e.get("args") or ()) == 1:
+                t = hq.peel(e["args"][0])
+                if t.get("k") == "Tup" and len(t.get("elems") or ()) == 2:
+                    return H.lit_val(hq.peel(t["elems"][0]))
+            return None
+        lits = [r for r in hq.find(hb0["body"], lambda x: x.get("k") == "Ret") if isinstance(lit_ret(r), int)]
+        try:
+            ps = paths.enumerate_paths(hb0["body"], is_cnt, loop_barrier=True)
+        except paths.Unsupported as e:
+            raise Anchor("paths of decode_from_to: %s" % e)
+        reached = {}
+        for p_ in ps:
+            if p_.end != "return":
                 continue
+            r = next((x for x in lits if x.get("e") is p_.value), None)
+            if r is None:
+                continue
+            amounts = [H.lit_val(hq.peel(ev["r"])) for ev in p_.events]
+            reached.setdefault(id(r), (r, []))[1].append(amounts)
+        nlit = 0
+        for r in sorted(lits, key=lambda x: x["sp"][0]):
             nlit += 1
-            reach = [i for i in incs if acct.can_reach(body, i[0], bi)]
-            nondom = [i for i in reach if not body.dominates(i[0], bi)]
-            total = sum(i[1] for i in reach if isinstance(i[1], int)) if all(isinstance(i[1], int) for i in reach) else None
-            ctx.check(not nondom and total == k, RA, "early-return-%d::literal-equals-increments" % nlit, body.loc(sp),
-                      "a return that reports %d consumed bytes must be reached only by paths that advanced the consumed counter by exactly %d "
-                      "(increments that can reach it: %s; of which not on every path: %d)" % (k, k, [i[1] for i in reach], len(nondom)),
-                      observed={"reported": k, "increments_reaching": [str(i[1]) for i in reach], "conditional": len(nondom)})
-        ctx.check(nlit >= 1, RA, "early-returns-found", body.file, "literal early returns", observed=nlit)
+            k = lit_ret(r)
+            got = reached.get(id(r), (r, None))[1]
+            ok = got is not None and all(all(isinstance(a_, int) for a_ in am) and sum(am) == k for am in got)
+            ctx.check(ok, RA, "early-return-%d::literal-equals-increments" % nlit, H.loc(hb0, r),
+                      "a return that reports %d consumed bytes must be reached only by paths that advanced the consumed counter by exactly %d" % (k, k),
+                      observed={"reported": k, "increments on the paths reaching it": got if got is not None else "not reached before the block loop"})
+        ctx.check(nlit >= 1, RA, "early-returns-found", hb0["file"], "literal early returns", observed=nlit)
         # final return = end - start
         hb = ctx.hir(FD + "::decode_from_to")
         pv = hq.Canon(hb, inline=True, max_depth=6, force=True)
